@@ -140,7 +140,38 @@ def two_cycle_unseeded(t_out, t_in, v_src, v_ext, enforce):
     return {"self": ex, "external_inputs": None, "enforce_static_checks": enforce}
 
 
+def chain_wired_after_the_executor_was_built(t_out, t_in, v_src, v_ext, enforce):
+    d = WiringDiagram()
+    d.add_module(ModuleSpec(name="src", inputs={}, outputs={"o": t_out}))
+    d.add_module(ModuleSpec(name="sink", inputs={"i": t_in}, outputs={}))
+    ex = DiagramExecutor(d)
+    ex.register_module("src", lambda inputs: {"o": v_src})
+    ex.register_module("sink", lambda inputs: {})
+    d.connect("src", "o", "sink", "i")            # the diagram is wired AFTER the executor exists: execute() must see the current wires
+    return {"self": ex, "external_inputs": None, "enforce_static_checks": enforce}
+
+
+def second_source_wired_after_the_executor_was_built(t_out, t_in, v_src, v_ext, enforce):
+    d = WiringDiagram()
+    d.add_module(ModuleSpec(name="src", inputs={}, outputs={"o": t_out}))
+    d.add_module(ModuleSpec(name="src2", inputs={}, outputs={"o": t_out}))
+    d.add_module(ModuleSpec(name="sink", inputs={"i": t_in}, outputs={}))
+    d.connect("src", "o", "sink", "i")
+    ex = DiagramExecutor(d)
+    ex.register_module("src", lambda inputs: {"o": v_src})
+    ex.register_module("src2", lambda inputs: {"o": v_src})
+    ex.register_module("sink", lambda inputs: {})
+    d.connect("src2", "o", "sink", "i")
+    return {"self": ex, "external_inputs": None, "enforce_static_checks": enforce}
+
+
 EXE = FR + "::DiagramExecutor.execute"
+contract(EXE, "C16", variant="chain-wired-after-construction", options={"setup": "chain_wired_after_the_executor_was_built"}, ghost_params=G2, raises=["WiringError"],
+         ensures={"feeder-runs-first-each-module-once": "len(result.execution_order) == 2 and result.execution_order[0] == 'src' and result.execution_order[1] == 'sink'",
+                  "wire-delivers-the-source-value": "result.modules['sink'].inputs['i'] is result.modules['src'].outputs['o']"},
+         xensures={"a-schedulable-diagram-is-refused-only-for-a-label-violation": "is_obj(v_src) and (v_src.data_type != t_out.data_type or v_src.integrity != t_out.integrity)"})
+contract(EXE, "C16", variant="second-source-wired-after-construction", options={"setup": "second_source_wired_after_the_executor_was_built"}, ghost_params=G2,
+         raises=["WiringError"], ensures={"a-cycle-or-a-doubly-sourced-port-is-never-executed": "False"})
 contract(EXE, "C16", variant="chain-consumer-declared-first", options={"setup": "chain_sink_declared_first"}, ghost_params=G2, raises=["WiringError"],
          ensures={"feeder-runs-first-each-module-once": "len(result.execution_order) == 2 and result.execution_order[0] == 'src' and result.execution_order[1] == 'sink'",
                   "wire-delivers-the-source-value": "result.modules['sink'].inputs['i'] is result.modules['src'].outputs['o']",
